@@ -1456,8 +1456,259 @@ fn run_lz(c: &Case) -> Obs {
     Obs::ok(obs, validated).with_verdict(v)
 }
 
+// -------------------------------------------------------------------------------------------
+// `file` / `fread`: whole uncompressed BAM streams (magic + header block + framed records) and
+// the same through a level-0 (stored blocks) BGZF writer.
+//   file  mode hdrtext nrec (name flags rid pos mapq cigar mrid mpos tlen seq qual data)*nrec
+//         mode raw   = bam::io::Writer::from(Vec) / bam::io::Reader::from(&[u8])
+//         mode bgzf0 = the same stream through bgzf::io::Writer at CompressionLevel::NONE and back
+//                      through bgzf::io::Reader
+//   fread streamhex   an arbitrary uncompressed stream (written files cut, extended, mutated, with a
+//                     zero block_size inserted) given to read_header + read_record_buf* and to
+//                     read_header + read_record*
+// obs (modelled, NV.Bam.File): `W:<stream bytes|Err:kind>|H:<header text re-serialised|Err:kind>|
+// R:<n>:<records>|E:<Eof|Err:kind>|L:<block sizes of the lazy reader>:<Eof|Err:kind>`
+// (+ `|Z:<bgzf file bytes>|U:<stream the bgzf reader returns>` in mode bgzf0)
+
+fn specs_of_case(c: &Case, from: usize, nref: usize) -> Vec<Spec> {
+    let n = c.u(from) as usize;
+    (0..n)
+        .map(|i| {
+            let mut args = vec!["raw".to_string(), nref.to_string()];
+            args.extend_from_slice(&c.args[from + 1 + 12 * i..from + 1 + 12 * (i + 1)]);
+            Spec::from_case(&Case::new("0", "rec", args)).1
+        })
+        .collect()
+}
+
+fn write_stream<W: io::Write>(w: &mut bam::io::Writer<W>, header: &sam::Header, recs: &[RecordBuf]) -> Result<(), (String, io::Error)> {
+    w.write_header(header).map_err(|e| ("hdr".to_string(), e))?;
+    for (i, r) in recs.iter().enumerate() {
+        w.write_alignment_record(header, r).map_err(|e| (i.to_string(), e))?;
+    }
+    Ok(())
+}
+
+struct ReadBack {
+    header: Result<sam::Header, io::Error>,
+    recs: Vec<RecordBuf>,
+    end: Option<io::Error>,
+}
+
+fn read_eager<R: io::Read>(rd: &mut bam::io::Reader<R>) -> ReadBack {
+    let header = match rd.read_header() {
+        Ok(h) => h,
+        Err(e) => return ReadBack { header: Err(e), recs: vec![], end: None },
+    };
+    let mut recs = Vec::new();
+    let end = loop {
+        let mut r = RecordBuf::default();
+        match rd.read_record_buf(&header, &mut r) {
+            Ok(0) => break None,
+            Ok(_) => recs.push(r),
+            Err(e) => break Some(e),
+        }
+    };
+    ReadBack { header: Ok(header), recs, end }
+}
+
+/// the lazy reader: block sizes returned by read_record, the records, and how it ended
+fn read_lazy<R: io::Read>(rd: &mut bam::io::Reader<R>) -> Option<(Vec<usize>, Vec<bam::Record>, Option<io::Error>)> {
+    rd.read_header().ok()?;
+    let mut sizes = Vec::new();
+    let mut recs = Vec::new();
+    let end = loop {
+        let mut r = bam::Record::default();
+        match rd.read_record(&mut r) {
+            Ok(0) => break None,
+            Ok(n) => {
+                sizes.push(n);
+                recs.push(r);
+            }
+            Err(e) => break Some(e),
+        }
+    };
+    Some((sizes, recs, end))
+}
+
+fn header_text(h: &sam::Header) -> Vec<u8> {
+    let mut w = sam::io::Writer::new(Vec::new());
+    w.write_header(h).expect("header text");
+    w.into_inner()
+}
+
+fn end_obs(e: &Option<io::Error>) -> String {
+    match e {
+        None => "Eof".into(),
+        Some(e) => format!("Err:{}", nv::errkind(e)),
+    }
+}
+
+/// the read-back part of the observation for a stream behind `mk` (two fresh readers)
+fn read_obs<R: io::Read>(mut mk: impl FnMut() -> bam::io::Reader<R>) -> (String, ReadBack, Option<(Vec<usize>, Vec<bam::Record>, Option<io::Error>)>) {
+    let eg = read_eager(&mut mk());
+    let lz = read_lazy(&mut mk());
+    let obs = match &eg.header {
+        Err(e) => format!("H:Err:{}", nv::errkind(e)),
+        Ok(h) => {
+            let canon: Vec<String> = eg.recs.iter().map(|r| short_or_digest(from_record_buf(r, 0).canon())).collect();
+            let (sizes, lend) = match &lz {
+                Some((s, _, e)) => (s.iter().map(|n| n.to_string()).collect::<Vec<_>>().join(","), end_obs(e)),
+                None => ("-".into(), "-".into()),
+            };
+            format!(
+                "H:{}|R:{}:{}|E:{}|L:{}:{}",
+                short_or_digest(hex(&header_text(h))),
+                eg.recs.len(),
+                short_or_digest(canon.join(";")),
+                end_obs(&eg.end),
+                short_or_digest(sizes),
+                lend
+            )
+        }
+    };
+    (obs, eg, lz)
+}
+
+fn run_file(c: &Case) -> Obs {
+    let mode = c.args[0].clone();
+    let text = c.b(1);
+    let Ok(header) = String::from_utf8_lossy(&text).parse::<sam::Header>() else {
+        return Obs::ok("-", false);
+    };
+    let nref = header.reference_sequences().len();
+    let specs = specs_of_case(c, 2, nref);
+    let recs: Vec<RecordBuf> = specs.iter().map(to_record_buf).collect();
+    let first_reject = specs.iter().position(|s| reject_reason(s).is_some());
+
+    let written = match guarded(std::panic::AssertUnwindSafe(|| {
+        let mut w = bam::io::Writer::from(Vec::new());
+        write_stream(&mut w, &header, &recs).map(|_| w.into_inner())
+    })) {
+        Outcome::Done(r) => r,
+        Outcome::Panicked(m) => return Obs::fail("Panic", "file-write-panic", m),
+    };
+    let stream = match written {
+        Err((at, e)) => {
+            let obs = format!("W:Err:{}", nv::errkind(&e));
+            return match first_reject {
+                Some(i) if at == i.to_string() => Obs::ok(obs, true),
+                Some(i) => Obs::fail(obs, "file-rejected-at-other-record", format!("failed at {at}, first unrepresentable record is {i}")),
+                None => Obs::fail(obs, "file-rejected-valid", format!("at {at}: {e}")),
+            };
+        }
+        Ok(b) => b,
+    };
+    if let Some(i) = first_reject {
+        return Obs::fail(format!("W:{}", bytes_obs(&stream)), "file-accepted-unrepresentable", format!("record {i}: {:?}", reject_reason(&specs[i])));
+    }
+
+    let (robs, eg, lz) = match guarded(std::panic::AssertUnwindSafe(|| read_obs(|| bam::io::Reader::from(&stream[..])))) {
+        Outcome::Done(r) => r,
+        Outcome::Panicked(m) => return Obs::fail(format!("W:{}|Panic", bytes_obs(&stream)), "file-read-panic", m),
+    };
+    let mut obs = format!("W:{}|{}", bytes_obs(&stream), robs);
+
+    // the property on the implementation: header, records in order, clean EOF; lazy == eager
+    let want: Vec<Spec> = specs.iter().map(|s| { let mut n = normalise(s); n.nref = 0; n }).collect();
+    let check = |eg: &ReadBack, lz: &Option<(Vec<usize>, Vec<bam::Record>, Option<io::Error>)>, pre: &str| -> V {
+        let h2 = match &eg.header {
+            Ok(h) => h,
+            Err(e) => return bad(&format!("{pre}file-header-unreadable"), format!("{e}")),
+        };
+        if *h2 != header {
+            return bad(&format!("{pre}file-header-differs"), "");
+        }
+        if let Some(e) = &eg.end {
+            return bad(&format!("{pre}file-record-unreadable"), format!("after {} of {} records: {e}", eg.recs.len(), want.len()));
+        }
+        let got: Vec<Spec> = eg.recs.iter().map(|r| from_record_buf(r, 0)).collect();
+        if got.len() != want.len() {
+            return bad(&format!("{pre}file-record-count"), format!("{} vs {}", got.len(), want.len()));
+        }
+        if let Some(i) = (0..got.len()).find(|i| got[*i] != want[*i]) {
+            return bad(&format!("{pre}file-roundtrip-{}", first_diff(&got[i], &want[i])), format!("record {i}"));
+        }
+        match lz {
+            Some((sizes, lrecs, None)) if sizes.len() == want.len() => {
+                let mut fails = Vec::new();
+                for (l, e) in lrecs.iter().zip(eg.recs.iter()) {
+                    fails.extend(check_lazy(h2, l, e, false));
+                }
+                select(fails.into_iter().filter(|(t, _)| !LATE_TAGS.contains(&t.as_str())).collect())
+            }
+            _ => bad(&format!("{pre}file-lazy-reader"), "count or end differs"),
+        }
+    };
+    let mut verdict = check(&eg, &lz, "");
+
+    if mode == "bgzf0" {
+        let z = guarded(std::panic::AssertUnwindSafe(|| -> io::Result<(Vec<u8>, Vec<u8>)> {
+            use noodles_bgzf as bgzf;
+            let inner = bgzf::io::writer::Builder::default()
+                .set_compression_level(bgzf::io::writer::CompressionLevel::NONE)
+                .build_from_writer(Vec::new());
+            let mut w = bam::io::Writer::from(inner);
+            write_stream(&mut w, &header, &recs).map_err(|(_, e)| e)?;
+            let file = w.into_inner().finish()?;
+            let mut un = Vec::new();
+            io::Read::read_to_end(&mut bgzf::io::Reader::new(&file[..]), &mut un)?;
+            Ok((file, un))
+        }));
+        match z {
+            Outcome::Done(Ok((file, un))) => {
+                obs.push_str(&format!("|Z:{}|U:{}", bytes_obs(&file), bytes_obs(&un)));
+                if verdict.is_ok() {
+                    if un != stream {
+                        verdict = bad("bgzf0-stream-differs", format!("{} vs {} bytes", un.len(), stream.len()));
+                    } else {
+                        match guarded(std::panic::AssertUnwindSafe(|| read_obs(|| bam::io::Reader::new(&file[..])))) {
+                            Outcome::Done((_, eg2, lz2)) => verdict = check(&eg2, &lz2, "bgzf0-"),
+                            Outcome::Panicked(m) => verdict = bad("bgzf0-file-read-panic", m),
+                        }
+                    }
+                }
+            }
+            Outcome::Done(Err(e)) => {
+                obs.push_str(&format!("|Z:Err:{}", nv::errkind(&e)));
+                if verdict.is_ok() {
+                    verdict = bad("bgzf0-io", format!("{e}"));
+                }
+            }
+            Outcome::Panicked(m) => return Obs::fail(format!("{obs}|Z:Panic"), "bgzf0-panic", m),
+        }
+    }
+    Obs::ok(obs, !specs.is_empty()).with_verdict(verdict)
+}
+
+fn run_fread(c: &Case) -> Obs {
+    let stream = c.b(0);
+    match guarded(std::panic::AssertUnwindSafe(|| read_obs(|| bam::io::Reader::from(&stream[..])))) {
+        Outcome::Done((obs, eg, lz)) => {
+            // lazy and eager readers share the framing: same number of records unless the eager
+            // decoder rejected one, and both stop the same way otherwise
+            let v: V = match (&eg.header, &lz) {
+                (Ok(_), Some((sizes, _, lend))) => {
+                    let decode_err = matches!(&eg.end, Some(e) if e.kind() == io::ErrorKind::InvalidData);
+                    if !decode_err && (sizes.len() != eg.recs.len() || lend.as_ref().map(|e| e.kind()) != eg.end.as_ref().map(|e| e.kind())) {
+                        bad("fread-lazy-eager-framing-differs", format!("{} vs {} records", sizes.len(), eg.recs.len()))
+                    } else {
+                        Ok(())
+                    }
+                }
+                _ => Ok(()),
+            };
+            let nontrivial = eg.header.is_ok() && !eg.recs.is_empty();
+            Obs::ok(obs, nontrivial).with_verdict(v)
+        }
+        Outcome::Panicked(m) => Obs::fail("Panic", "fread-panic", m),
+    }
+}
+
 fn run(c: &Case) -> Obs {
     match c.kind.as_str() {
+        "file" => run_file(c),
+        "fread" => run_fread(c),
         "lz" => run_lz(c),
         "rec" => run_rec(c),
         "dec" => run_dec(c),
@@ -2045,6 +2296,177 @@ fn gen_lz_cg_body(rng: &mut Rng) -> Vec<u8> {
     body
 }
 
+fn gen_header_text(rng: &mut Rng) -> (String, usize) {
+    let mut t = String::new();
+    if rng.chance(2, 3) {
+        t.push_str(match rng.below(3) {
+            0 => "@HD\tVN:1.6\n",
+            1 => "@HD\tVN:1.6\tSO:coordinate\n",
+            _ => "@HD\tVN:1.5\tSO:unsorted\tGO:none\n",
+        });
+    }
+    let nref = *rng.pick(&[0usize, 1, 2, 3, 5]);
+    for i in 0..nref {
+        let name = match rng.below(4) {
+            0 => format!("chr{i}"),
+            1 => format!("r{i}_{}", rng.below(1000)),
+            2 => format!("{i}"),
+            _ => format!("HLA-A*01:0{i}"),
+        };
+        let len = match rng.below(4) {
+            0 => (1u64 << 31) - 1,
+            1 => 1,
+            _ => rng.range(1, 300_000_000),
+        };
+        t.push_str(&format!("@SQ\tSN:{name}\tLN:{len}"));
+        if rng.chance(1, 4) {
+            t.push_str("\tM5:d41d8cd98f00b204e9800998ecf8427e");
+        }
+        t.push('\n');
+    }
+    if rng.chance(1, 3) {
+        t.push_str("@RG\tID:rg0\tSM:s\n");
+    }
+    if rng.chance(1, 3) {
+        t.push_str("@PG\tID:pg0\tPN:nv\n");
+    }
+    if rng.chance(1, 3) {
+        t.push_str("@CO\tfile level case\n");
+    }
+    (t, nref)
+}
+
+/// the 12 record fields of a `file` case
+fn rec_args(s: &Spec, rle: Option<String>) -> Vec<String> {
+    s.to_args("raw", rle)[2..].to_vec()
+}
+
+fn gen_file(rng: &mut Rng, w: &mut CaseWriter, idx: usize, big: bool) {
+    let (text, nref) = gen_header_text(rng);
+    let n = match rng.below(8) {
+        0 => 0,
+        1 => 1,
+        _ => rng.range(2, 12) as usize,
+    };
+    let mut args = vec![String::new(), hex(text.as_bytes()), String::new()];
+    let mut count = 0;
+    let mut push = |s: Spec, rle: Option<String>, args: &mut Vec<String>| {
+        args.extend(rec_args(&s, rle));
+        count += 1;
+    };
+    let inject_reject = idx % 9 == 4;
+    let reject_at = if n > 0 { rng.below(n as u64) as usize } else { 0 };
+    for i in 0..n {
+        let (mut s, rle) = if inject_reject && i == reject_at { let which = rng.below(26) as usize; gen_reject(rng, which) } else { gen_valid(rng) };
+        // the file's header decides the number of reference sequences
+        let fix = |id: Option<usize>, rng: &mut Rng| match id {
+            Some(_) if nref == 0 => None,
+            Some(x) if x >= nref && !(inject_reject && i == reject_at) => Some(rng.below(nref as u64) as usize),
+            other => other,
+        };
+        s.rid = fix(s.rid, rng);
+        s.mrid = fix(s.mrid, rng);
+        if rng.chance(1, 3) && nref > 0 {
+            s.rid = Some(rng.below(nref as u64) as usize);
+        }
+        s.nref = nref;
+        push(s, rle, &mut args);
+    }
+    if big {
+        let nops = *rng.pick(&[65536usize, 65537, 66000]);
+        let (mut s, rle) = gen_big_cigar(rng, nops);
+        s.nref = nref;
+        if nref == 0 {
+            s.rid = None;
+            s.mrid = None;
+        } else {
+            s.rid = s.rid.map(|x| x % nref);
+            s.mrid = s.mrid.map(|x| x % nref);
+        }
+        push(s, rle, &mut args);
+        let (mut s, rle) = gen_valid(rng);
+        s.nref = nref;
+        s.rid = None;
+        s.mrid = None;
+        push(s, rle, &mut args);
+    }
+    args[0] = if idx % 3 == 0 && !big { "bgzf0".into() } else { "raw".into() };
+    args[2] = count.to_string();
+    w.push("file", args);
+}
+
+/// a written stream, then cut / extended / mutated / with a zero block_size inserted
+fn gen_fread(rng: &mut Rng, w: &mut CaseWriter) {
+    let (text, nref) = gen_header_text(rng);
+    let Ok(header) = text.parse::<sam::Header>() else { return };
+    let mut wr = bam::io::Writer::from(Vec::new());
+    if wr.write_header(&header).is_err() {
+        return;
+    }
+    let hdr_len = wr.get_ref().len();
+    let n = rng.range(0, 5) as usize;
+    let mut starts = vec![hdr_len];
+    for _ in 0..n {
+        let (mut s, _) = gen_valid(rng);
+        s.nref = nref;
+        if nref == 0 {
+            s.rid = None;
+            s.mrid = None;
+        }
+        if reject_reason(&s).is_some() {
+            continue;
+        }
+        if wr.write_alignment_record(&header, &to_record_buf(&s)).is_err() {
+            return;
+        }
+        starts.push(wr.get_ref().len());
+    }
+    let mut stream = wr.into_inner();
+    match rng.below(10) {
+        0 | 1 => {
+            // cut inside the record part
+            let at = rng.range(hdr_len as u64, stream.len() as u64) as usize;
+            stream.truncate(at);
+        }
+        2 => {
+            // cut just after a block_size / a few bytes into a block
+            let st = *rng.pick(&starts);
+            let at = (st + rng.range(1, 40) as usize).min(stream.len());
+            stream.truncate(at);
+        }
+        3 => {
+            // a zero block_size before some record: the readers report the end of the stream
+            let st = *rng.pick(&starts);
+            stream.splice(st..st, [0u8; 4]);
+        }
+        4 => {
+            let k = rng.range(1, 6) as usize;
+            stream.extend(rng.bytes(k));
+        }
+        5 => {
+            // cut inside the header block
+            let at = rng.below(hdr_len as u64 + 1) as usize;
+            stream.truncate(at);
+        }
+        6 | 7 => {
+            if stream.len() > hdr_len {
+                let at = rng.range(hdr_len as u64, stream.len() as u64 - 1) as usize;
+                stream[at] = rng.below(256) as u8;
+            }
+        }
+        8 => {
+            // a block_size that promises more than the stream holds / less than the layout needs
+            let st = *rng.pick(&starts);
+            if st + 4 <= stream.len() {
+                let v: u32 = *rng.pick(&[1u32, 31, 32, 33, 1 << 20, u32::MAX]);
+                stream[st..st + 4].copy_from_slice(&v.to_le_bytes());
+            }
+        }
+        _ => {}
+    }
+    w.push("fread", vec![hex(&stream)]);
+}
+
 fn generate(rng: &mut Rng, tier: &str, w: &mut CaseWriter) {
     let thorough = tier == "thorough";
     for t in ["bases", "nibbles", "kinds"] {
@@ -2107,6 +2529,18 @@ fn generate(rng: &mut Rng, tier: &str, w: &mut CaseWriter) {
         if let Some(body) = body {
             w.push("lz", vec![hex(&body)]);
         }
+    }
+    // whole files (appended last: the cases above keep their ids and random draws)
+    let n_file = if thorough { 6000 } else { 160 };
+    for i in 0..n_file {
+        gen_file(rng, w, i, false);
+    }
+    for i in 0..(if thorough { 6 } else { 1 }) {
+        gen_file(rng, w, i, true);
+    }
+    let n_fread = if thorough { 12000 } else { 400 };
+    for _ in 0..n_fread {
+        gen_fread(rng, w);
     }
 }
 
